@@ -54,6 +54,8 @@ theorem default_marker_any_spelling (name m : Str) (hm : m ∈ defaultMarkers) (
     isSensitive defaultConfig name = true := by
   rw [isSensitive_iff]; exact Or.inr ⟨m, hm, h⟩
 
+example : lower "AUTHORIZATION".toList ∈ defaultKeys ∧ "key".toList ∈ defaultMarkers := by decide
+
 example : isSensitive defaultConfig "X-Custom-TOKEN-Header".toList = true ∧
     isSensitive defaultConfig "SET-COOKIE".toList = true ∧ isSensitive defaultConfig "X-Plain".toList = false := by
   decide
@@ -319,11 +321,11 @@ theorem sanitizeUrl_query_secret_irrelevant (cfg : Config) (u : Url) (pre post :
   apply sanitizeUrl_ni
   simp [lowEqUrl, parseQs_lowEq cfg _ _ (lowEqPairs_point cfg pre post k s₁ s₂ hk)]
 
-/-- The sanitized authority is the reference redaction (no userinfo: unchanged; userinfo: replaced wholesale). -/
-theorem sanNetloc_correct (cfg : Config) (n : Str) : okNetloc cfg n (sanNetloc cfg n) = true := by
-  unfold okNetloc
-  rw [sanNetloc_spec]
-  by_cases h : hasUserinfo n = true <;> simp [h]
+/-- `sanitize_url`'s result is the reference redaction of its input: scheme, host, path and fragment kept, userinfo
+    replaced wholesale, and — read back as a multi-map — the query carries the replacement under every sensitive name and
+    the original values elsewhere. -/
+theorem sanitizeUrl_correct (cfg : Config) (u : Url) : okUrl cfg u (sanitizeUrl cfg u) = true :=
+  sanitizeUrl_ok cfg u
 
 example : sanitizeUrl defaultConfig ⟨"http".toList, "usr:pw@h:80".toList, "/x".toList,
       [("q".toList, "1".toList), ("Api_Key".toList, "S".toList), ("q".toList, "2".toList)], []⟩ =
@@ -344,6 +346,16 @@ theorem vcrEntry_noninterference (cfg : Config) (a b : Interaction) (h : lowEqIn
   cases ha : a.respHeaders <;> cases hb : b.respHeaders <;> simp_all [lowEqOptMulti]
   exact sanMulti_ni cfg _ _ hr
 
+/-- non-vacuity: two interactions that differ in five secrets (userinfo, query token, request `Authorization`, request
+    `Cookie`, response `Set-Cookie`) and in nothing else -/
+example : lowEqInteraction defaultConfig
+    ⟨⟨"http".toList, "u:S1@h".toList, "/a".toList, [("token".toList, "S2".toList), ("q".toList, "1".toList)], []⟩,
+      [("Authorization".toList, ["Bearer S3".toList]), ("COOKIE".toList, ["sid=S4".toList]), ("Accept".toList, ["*/*".toList])],
+      some [("set-cookie".toList, ["sid=S5".toList]), ("content-type".toList, ["application/json".toList])]⟩
+    ⟨⟨"http".toList, "u:T1@h".toList, "/a".toList, [("token".toList, "T2".toList), ("q".toList, "1".toList)], []⟩,
+      [("Authorization".toList, ["Bearer T3".toList]), ("COOKIE".toList, ["sid=T4".toList, "x".toList]), ("Accept".toList, ["*/*".toList])],
+      some [("set-cookie".toList, ["sid=T5".toList]), ("content-type".toList, ["application/json".toList])]⟩ = true := by decide
+
 /-- HAR entry: same statement (the HAR fields are functions of the sanitized URL and headers). -/
 theorem harEntry_noninterference (cfg : Config) (a b : Interaction) (h : lowEqInteraction cfg a b = true) :
     harEntry cfg true a = harEntry cfg true b := by
@@ -356,21 +368,10 @@ theorem cassette_off_raw (cfg : Config) (i : Interaction) :
     harEntry cfg false i = ⟨i.uri, i.uri.query, firstValues i.reqHeaders, i.respHeaders.map firstValues⟩ := by
   simp [vcrEntry, harEntry]
 
-/-- The entry's header blocks are the reference redaction of the recorded ones. -/
-theorem vcrEntry_headers_correct (cfg : Config) (i : Interaction) :
-    okMulti cfg i.reqHeaders (vcrEntry cfg true i).reqHeaders = true ∧
-    okOptMulti cfg i.respHeaders (vcrEntry cfg true i).respHeaders = true := by
-  have hm : ∀ d, okMulti cfg d (sanMulti cfg d) = true := by
-    intro d; induction d with
-    | nil => rfl
-    | cons p rest ih =>
-      obtain ⟨k, vs⟩ := p
-      rw [sanMulti_cons]
-      simp only [okMulti, ih, sensitiveB_eq, beq_self_eq_true, Bool.true_and, Bool.and_true]
-      by_cases hs : isSensitive cfg k = true <;> simp [hs]
-  refine ⟨hm _, ?_⟩
-  simp only [vcrEntry, if_true]
-  cases i.respHeaders <;> simp [okOptMulti, hm]
+/-- The cassette entry is the reference redaction of the recorded interaction (URL, request and response headers). -/
+theorem vcrEntry_correct (cfg : Config) (i : Interaction) : okEntry cfg i (vcrEntry cfg true i) = true := by
+  simp only [okEntry, vcrEntry, if_true, sanitizeUrl_ok, okMulti_sanMulti, Bool.true_and]
+  cases i.respHeaders <;> simp [okOptMulti, okMulti_sanMulti]
 
 /-- Reproduction command, code as found: non-interference holds for secrets *held under sensitive names* only … -/
 theorem prepare_asFound_partial (cfg : Config) (a b : Kwargs) (h : lowEqKwargsNamed cfg a b = true) :
@@ -394,6 +395,12 @@ theorem prepare_asFound_partial (cfg : Config) (a b : Kwargs) (h : lowEqKwargsNa
     simp only [sanitizeKwargs, Kwargs.mk.injEq]
     exact ⟨sanitizeUrl_ni cfg _ _ hu, sanHeaders_ni cfg _ _ hh, hd _ _ hc, hd _ _ hp, ha⟩
   simp [prepareRequest, this]
+
+example : lowEqKwargsNamed defaultConfig
+    ⟨⟨"http".toList, "u:p1@h".toList, "/a".toList, [], []⟩, [("X-Api-Key".toList, "k1".toList)],
+      some [("sessionid".toList, .leaf "c1".toList), ("theme".toList, .leaf "dark".toList)], none, none⟩
+    ⟨⟨"http".toList, "u:p2@h".toList, "/a".toList, [], []⟩, [("X-Api-Key".toList, "k2".toList)],
+      some [("sessionid".toList, .leaf "c2".toList), ("theme".toList, .leaf "dark".toList)], none, none⟩ = true := by decide
 
 /-- … and the full statement (the cookie jar and the auth credentials are secrets too) is false for it:
     a cookie value under a non-sensitive cookie name is printed in the `Cookie` header, … -/
@@ -537,6 +544,9 @@ theorem commandRepr_repaired_header_irrelevant (cfg : Config) (argv0 : Str) (pre
   simp only [if_true, sanArgs_append cfg pre _ hpre, sanArgs, hopt, hnoauth, Bool.false_eq_true, if_false, Arg.raw,
     sanHeaderArg, partitionColon_name name _ hname [], List.reverse_nil, List.nil_append, hsens]
 
+example : (Arg.word "-H".toList).isOpt headerOpts = true ∧ (Arg.word "-H".toList).isOpt authOpts = false ∧
+    ':' ∉ "X-Api-Key".toList ∧ isSensitive defaultConfig (strip "X-Api-Key".toList) = true := by decide
+
 /-- Repaired: a URL word (schema location, `--base-url` value, …) that is not an option value is rendered through
     `sanitize_url`: userinfo and sensitive query values are irrelevant. -/
 theorem commandRepr_repaired_url_irrelevant (cfg : Config) (argv0 : Str) (pre post : List Arg) (r₁ r₂ : Str) (u₁ u₂ : Url)
@@ -567,6 +577,10 @@ theorem consoleIntro_asFound_leaks :
     let base : Url := ⟨"http".toList, "h".toList, "/api".toList, [], []⟩
     mentionsUrl "LOCSECRET".toList (consoleIntro .asFound defaultConfig true loc base).1 = true ∧
     mentionsUrl "LOCSECRET".toList (consoleIntro .repaired defaultConfig true loc base).1 = false := by
+  decide
+
+example : lowEqUrl defaultConfig ⟨"http".toList, "usr:A@h".toList, "/o.json".toList, [("api_key".toList, "B".toList)], []⟩
+    ⟨"http".toList, "other:C@h".toList, "/o.json".toList, [("api_key".toList, "D".toList), ("api_key".toList, "E".toList)], []⟩ = true := by
   decide
 
 /-- Repaired: both printed URLs are non-interferent; with sanitization off they are printed raw. -/
